@@ -12,7 +12,8 @@
 (***************************************************************************)
 EXTENDS Integers, Sequences, FiniteSets, TLC, Json, MapLookup
 
-URLs       == {"none", "svc_ok", "http_ok", "https_unresolvable", "malformed", "unknown_proto", "missing_port", "unknown_svc"}
+URLs       == {"none", "svc_ok", "http_ok", "https_unresolvable", "malformed", "unknown_proto", "missing_port", "unknown_svc",
+               "trailing_blank", "quoted"}
 OAuths     == {"none", "valid_with_path", "valid_missing_path", "invalid_impl"}
 Placements == {"backend", "frontend"}
 PTypes     == {"exact", "prefix", "begin"}
@@ -21,7 +22,8 @@ Ranges     == {"default", "invalid", "exhausted"}
 (* open: the unprotected path that shares the backend sorts after (/pub) or before (/aaa) the protected one *)
 Opens      == {"after", "before"}
 
-Cases == [url : URLs, oauth : OAuths, placement : Placements, ptype : PTypes, lua : BOOLEAN, range : Ranges, open : Opens]
+(* cors: the unprotected path enables CORS (its preflight handling must not open the protected one) *)
+Cases == [url : URLs, oauth : OAuths, placement : Placements, ptype : PTypes, lua : BOOLEAN, range : Ranges, open : Opens, cors : BOOLEAN]
 
 SeqT(t) == [i \in 1..Len(t) |-> t[i]]
 
